@@ -108,7 +108,27 @@ def net_case(g, rnd=None, extra=()):
     degs = [d for _, d in g.degree()]
     mk = max(degs) if degs else 0
     idx = sorted(set([0, 1, mk, mk + 1] + list(extra) + ([rnd.randrange(0, mk + 2) for _ in range(3)] if rnd else [])))
-    return {'kind': 'net', 'nodes': list(g.nodes()), 'edges': [list(e) for e in g.edges()], 'idx': idx}
+    c = {'kind': 'net', 'nodes': list(g.nodes()), 'edges': [list(e) for e in g.edges()], 'idx': idx}
+    if rnd is not None and rnd.random() < 0.35 and g.number_of_edges() >= 1 and g.order() >= 3:
+        # the SAME network object asked twice: after the first answer it is rewired in place (one end of some edges moved,
+        # keeping the numbers of nodes and edges, changing the degrees); the second answer is the one judged
+        moves = []
+        h = g.copy()
+        for _ in range(rnd.randrange(1, 4)):
+            es = list(h.edges())
+            a, b = rnd.choice(es)
+            cands = [x for x in h.nodes() if x not in (a, b) and not h.has_edge(a, x)]
+            if not cands:
+                continue
+            x = rnd.choice(cands)
+            h.remove_edge(a, b)
+            h.add_edge(a, x)
+            moves.append([a, b, x])
+        if moves:
+            c['moves'] = moves
+            degs = [d for _, d in h.degree()]
+            c['idx'] = sorted(set(idx + [max(degs), max(degs) + 1]))
+    return c
 
 
 def rnd_graph(rnd):
@@ -399,6 +419,12 @@ class H(Harness):
             g.add_edges_from(tuple(e) for e in case['edges'])
             try:
                 gf = G.gf_from_network(g)
+                if case.get('moves'):
+                    first = [float(gf[i]) for i in case['idx']]       # asked, and read, before the network changes
+                    for a, b, x in case['moves']:
+                        g.remove_edge(a, b)
+                        g.add_edge(a, x)
+                    gf = G.gf_from_network(g)
                 return {'valueerror': None, 'raised': None, 'nodes': list(g.nodes()), 'edges': [list(e) for e in g.edges()],
                         'degrees': sorted(d for _, d in g.degree()),
                         'coeffs': [float(gf[i]) for i in case['idx']], 'one': float(gf(1)), 'mean': float(gf.dx()(1))}
